@@ -1,7 +1,7 @@
 """C08 - TOUGH2 grid stays internally consistent under any sequence of edits."""
 import itertools
 from hypothesis import strategies as st
-from vlib.core import Search, HarnessError
+from vlib.core import Search, HarnessError, Aborted
 from gens import geo
 
 ID = 'C08'
@@ -220,6 +220,8 @@ def apply_op(R, g, m, op):
             if kind == 'fresh': tg = [fresh_name(m, 10 + j) for j in range(len(src))]
             elif kind == 'cycle': tg = src[1:] + src[:1]
             elif kind == 'swap': tg = src[:2][::-1] + src[2:]
+            elif kind == 'twins':                         # names that differ in the first character only (MINC derives names from the rest)
+                src = src[:2]; tg = ['Xzz 9', 'Yzz 9'][:len(src)]
             else: tg = src[1:] + [fresh_name(m, 3)]      # shift into a fresh name
             mp = dict(zip(src, tg))
         mp = dict((a, b) for a, b in mp.items() if a != b)
@@ -263,7 +265,8 @@ def apply_op(R, g, m, op):
         if nc: m.cons = newcons
     elif k == 'demote_block':
         if nb == 0: return g, None
-        idx = list(dict.fromkeys(i % nb for i in op['blocks']))
+        idx = [i % nb for i in op['blocks']]         # a name may be listed more than once (e.g. two boundary lists sharing a corner)
+        if len(set(idx)) < len(idx): R.label('demote:repeated-name')
         nm = [m.blocks[i][1] for i in idx]
         g.demote_block(nm if len(nm) > 1 else nm[0])
         for n in nm:
@@ -279,7 +282,19 @@ def apply_op(R, g, m, op):
         levels = len(vf) - 1
         proc = [n for n in nm if 0. < m.byname(n)[3] < 1e25]
         newnames = [str(l) + n[len(str(l)):] for n in proc for l in range(1, levels + 1)]
-        if len(set(newnames)) != len(newnames) or set(newnames) & set(m.names()): return g, None
+        if len(set(newnames)) != len(newnames) or set(newnames) & set(m.names()):
+            # generated matrix block names clash (with each other or with a block of the grid): either the edit is
+            # refused (the history ends there: a refusal is not an edit), or it is carried out and then the grid
+            # must be as consistent as after any other edit
+            R.label('minc:name-clash')
+            try:
+                g.minc(vf, spacing=op.get('spacing', 50.), num_fracture_planes=op.get('nfp', 1), blocks=nm)
+            except Exception as e:
+                if 'Duplicate MINC matrix block name' in str(e):
+                    R.label('minc:name-clash-refused'); raise Aborted()
+                raise
+            invariant(R, g, 'minc', m.redefined)
+            raise Aborted()
         g.minc(vf, spacing=op.get('spacing', 50.), num_fracture_planes=op.get('nfp', 1), blocks=nm)
         tot = float(sum(vf))
         for n in proc:
@@ -375,6 +390,7 @@ def alphabet(full):
         keep = [[[U[0], U[1]], [U[1], U[0]]], [[U[0], U[1]], [U[1], U[2]], [U[2], U[0]]], [[U[0], U[3]]],
                 [[U[1], U[2]], [U[2], U[3]]], [[U[0], U[1]], [U[1], U[3]]], [[U[2], U[3]]]]
         maps = keep
+    maps = maps + [[[U[0], 'Xzz 9'], [U[1], 'Yzz 9']]]
     for mp in maps: A.append({'op': 'rename_blocks', 'map': mp})
     perms = list(itertools.permutations(range(4))) if full else [(3, 2, 1, 0), (1, 2, 3, 0), (0, 1, 2, 3)]
     for p in perms:
@@ -382,7 +398,7 @@ def alphabet(full):
             for fl in ['none', 'first', 'all']:
                 A.append({'op': 'reorder', 'perm': list(p), 'cperm': cp, 'flip': fl})
     for i in range(4): A.append({'op': 'demote_block', 'blocks': [i]})
-    A.append({'op': 'demote_block', 'blocks': [0, 2]})
+    A.append({'op': 'demote_block', 'blocks': [0, 2]}); A.append({'op': 'demote_block', 'blocks': [1, 0, 1]})
     A.append({'op': 'clean_rocktypes'})
     A.append({'op': 'minc', 'vf': [0.1, 0.9]}); A.append({'op': 'minc', 'vf': [1, 2, 3], 'blocks': [0, 1]})
     A.append({'op': 'plus'}); A.append({'op': 'plus', 'rock': 'r0'}); A.append({'op': 'embed', 'i': 0})
@@ -413,7 +429,7 @@ def op_strategy():
         st.builds(lambda a: {'op': 'redefine_rocktype', 'i': a}, i),
         st.builds(lambda a, b: {'op': 'rename_rocktype', 'i': a, 'j': b}, i, i),
         st.builds(lambda s, k: {'op': 'rename_blocks', 'src': s, 'kind': k}, small, st.sampled_from(['fresh', 'cycle', 'swap', 'shift'])),
-        st.builds(lambda s, k: {'op': 'rename_blocks', 'src': s, 'kind': k}, small, st.sampled_from(['cycle', 'swap', 'shift'])),
+        st.builds(lambda s, k: {'op': 'rename_blocks', 'src': s, 'kind': k}, small, st.sampled_from(['cycle', 'swap', 'shift', 'twins'])),
         st.builds(lambda p, c, f: {'op': 'reorder', 'perm': p, 'cperm': c, 'flip': f},
                   st.one_of(st.sampled_from(['reverse', 'rotate', 'identity']), st.lists(st.integers(0, 40), unique=True, max_size=8)),
                   st.one_of(st.sampled_from(['reverse', 'rotate', 'identity']), st.lists(st.integers(0, 60), unique=True, max_size=8)),
